@@ -80,6 +80,11 @@ def spell_impl(a):
         sp = [((x, y), {}), ((x,), {"b": y}), ((), {"a": x, "b": y}), ((), {"b": y, "a": x})]
     else:
         dy, dz = (5, "k") if fn == "g3" else (0, None)
+        if sel.get("after_edit"):
+            # the function was analysed with its old default earlier in this process, then its definition is edited (y=5 -> y=9)
+            _sig(w, fn, (x,))
+            w.set_variants({M: "b"})
+            dy = 9
         # default omitted == default passed explicitly
         if sel.get("use_default_yz"):
             sp = [((x, dy, dz), {}), ((x,), {}), ((), {"x": x}), ((x,), {"z": dz})]
@@ -215,6 +220,7 @@ def queries(tier):
         qs.append({"id": "spell.%s.default_z" % f, "fn": "spell", "sel": {"fn": f, "ykind": "int", "zkind": "str", "use_default_z": True}, "timeout": 500})
         qs.append({"id": "spell.%s.default_yz" % f, "fn": "spell", "sel": {"fn": f, "ykind": "int", "zkind": "str", "use_default_yz": True}, "timeout": 500})
         qs.append({"id": "spell.%s.default_y" % f, "fn": "spell", "sel": {"fn": f, "ykind": "int", "zkind": "str", "use_default_y": True}, "timeout": 500})
+    qs.append({"id": "spell.g3.default_yz.after-edit", "fn": "spell", "sel": {"fn": "g3", "ykind": "int", "zkind": "str", "use_default_yz": True, "after_edit": True}, "timeout": 500})
     qs.append({"id": "spell.gf.none", "fn": "spell", "sel": {"fn": "gf", "ykind": "bool", "zkind": "none"}, "timeout": 500})
     qs.append({"id": "distinct.g2", "fn": "distinct", "sel": {"fn": "g2"}, "timeout": 600})
     qs.append({"id": "distinct.g3", "fn": "distinct", "sel": {"fn": "g3"}, "timeout": 600})
